@@ -229,7 +229,8 @@ impl Game {
                     if board.castle_rights(Color::White) != white_castle_rights
                         || board.castle_rights(Color::Black) != black_castle_rights
                     {
-                        reversible_moves = 0;
+                        // earlier positions cannot repeat (they had more castle rights), but
+                        // losing castle rights does not restart the 50 move count
                         legal_moves_per_turn.clear();
                     }
                     legal_moves_per_turn
